@@ -1,0 +1,13 @@
+//go:build verif
+
+package operator
+
+// VerifUseTimerCache gives a freshly deployed operator a timer store with the given cache size (bytes, shared by its
+// key groups) instead of the fixed size.GB of HandleDeploy: the same constructors over the operator's own DB, key
+// space, key-group range and source runners. Call it right after HandleDeploy, before any event (verification
+// harness only, build tag verif), so that cache eviction and reload run through the real Operator.
+func (o *Operator) VerifUseTimerCache(maxCacheSize uint64) {
+	o.mu.Lock()
+	defer o.mu.Unlock()
+	o.timerRegistry = NewTimerRegistry(NewTimerStore(o.db, o.keySpace, o.keyGroupRange, maxCacheSize), o.sourceRunners.all)
+}
